@@ -512,8 +512,16 @@ func (x *Exec) concreteLen(t *smt.Term, typ types.Type, elem types.Type, what st
 	if n < 0 {
 		x.rtPanic("makeslice: len out of range")
 	}
-	if n > 1<<24 {
-		panic(x.unsupported("concrete allocation of %d elements", n))
+	if n > 1<<22 {
+		// far beyond anything a harness input of a few dozen bytes justifies
+		f := &Finding{Kind: "alloc", Label: "huge-allocation", Harness: x.harness, Path: append([]int{}, x.trace...),
+			Msg: fmt.Sprintf("%s of %d elements x %d bytes", what, n, x.sizeof(elem))}
+		if x.query() == smt.Sat {
+			f.Model = x.fullModel()
+			f.Tape = x.tape(f.Model)
+		}
+		x.findings = append(x.findings, f)
+		panic(pathEnd{"huge-allocation"})
 	}
 	return int(n)
 }
